@@ -526,6 +526,33 @@ func (e *Env) DBState(secret, meltQuote string) (proof, quote, preimage string, 
 	return
 }
 
+// LapseInvoice: with an adapter backend the fake node reports the (unpaid) invoice as lapsed from now
+// on — "expired" (CLN) or CANCELED (lnd). False with the model as the mint's client.
+func (e *Env) LapseInvoice(hash string) bool {
+	switch {
+	case e.Opts.Backend == "cln" && e.CLN != nil:
+		e.CLN.Expire(hash)
+	case e.Opts.Backend == "lnd" && e.LND != nil:
+		e.LND.Cancel(hash)
+	default:
+		return false
+	}
+	return true
+}
+
+// MintQuoteDBState reads the stored state of a mint quote through a read-only connection (no
+// Lightning lookup, no side effect): what the invoice watcher wrote, not what a poll would find out.
+func (e *Env) MintQuoteDBState(id string) (state string, err error) {
+	p := filepath.Join(e.Dir, "mint.sqlite.db")
+	db, err := sql.Open("sqlite3", "file:"+p+"?mode=ro&_busy_timeout=5000")
+	if err != nil {
+		return "", err
+	}
+	defer db.Close()
+	err = db.QueryRow("SELECT state FROM mint_quotes WHERE id = ?", id).Scan(&state)
+	return
+}
+
 // SecretStates reads the mint-side state of secrets through a read-only connection
 // (no Lightning lookups, no side effects): UNSPENT | PENDING | SPENT.
 func (e *Env) SecretStates(secrets []string) (map[string]string, error) {
